@@ -83,6 +83,8 @@ class C05(Prop):
                    'events that circuits fires internally (exception, *_failure) are effects too; they only delay completion')
     budget = {'quick': (500, 4), 'thorough': (8000, 16)}
 
+    shrink_lists = {'roots': 1, 'handlers': 1, 'fire': 0, 'steps': 0}
+
     def setup(self):
         driver.quiet_process()
 
